@@ -143,7 +143,14 @@ package main
 //@     invariant [C16] enumFailures > old(enumFailures) ==> err != nil
 //@     invariant [C15,C16] enumFailures == old(enumFailures) ==> err == nil
 //@     invariant [C12,C15] keyed-by-absolute-path: forall k string {has(files, k)} :: has(files, k) ==> files[k].Absolute == k
+//@   at call sort.Slice assert [C09,C15] what-is-sorted-lists-no-path-twice: forall a int, b int {boxedSlice(arg0)[a], boxedSlice(arg0)[b]} :: 0 <= a && a < len(boxedSlice(arg0)) && 0 <= b && b < len(boxedSlice(arg0)) && a != b ==> boxedSlice(arg0)[a].Absolute != boxedSlice(arg0)[b].Absolute
+//@   ensures [C09,C15] each-file-is-listed-once-whatever-the-arguments-overlap: forall a int, b int {files[a], files[b]} :: 0 <= a && a < len(files) && 0 <= b && b < len(files) && a != b ==> files[a].Absolute != files[b].Absolute
+//@   ensures [C15] in-the-order-of-the-resolved-paths: forall a int, b int {files[a], files[b]} :: 0 <= a && a < b && b < len(files) ==> !(files[b].Absolute < files[a].Absolute)
 //@   loop 2
+//@     invariant sortedPaths.arr == 0 || fresh(sortedPaths.arr)
+//@     invariant [C12,C15] keyed-by-absolute-path: forall k string {has(files, k)} :: has(files, k) ==> files[k].Absolute == k
+//@     invariant [C09,C15] listed-so-far-are-the-entries-visited-so-far: forall a int {sortedPaths[a]} :: 0 <= a && a < len(sortedPaths) ==> visited(sortedPaths[a].Absolute)
+//@     invariant [C09,C15] no-path-listed-twice: forall a int, b int {sortedPaths[a], sortedPaths[b]} :: 0 <= a && a < len(sortedPaths) && 0 <= b && b < len(sortedPaths) && a != b ==> sortedPaths[a].Absolute != sortedPaths[b].Absolute
 //@     decreases _
 
 //@ func (cmd *mainCmd) Run(args) (err)
@@ -152,7 +159,7 @@ package main
 //@   at effect disk-write assert [C12] dry-run-never-writes: !opts.Diff && !opts.Print
 //@   at effect disk-write assert [C06] only-matched-files-written: ok
 //@   at effect disk-write assert [C07] written-bytes-parse: Parses(string(arg1))
-//@   at effect disk-write assert [C12,C14,C16] written-bytes-are-the-pipeline-output: arg0 == filename && string(arg1) == ite(opts.SkipImportProcessing, fmtNode(f), impProc(filename, fmtNode(f)))
+//@   at effect disk-write assert [C12,C14,C15,C16] written-bytes-are-the-pipeline-output: arg0 == filename && string(arg1) == ite(opts.SkipImportProcessing, fmtNode(f), impProc(filename, fmtNode(f)))
 //@   at effect disk-write assert [C18] generated-skipped: !(opts.SkipGenerated && ret("main.checkGeneratedCode", 0))
 //@   at call main.findFiles assert [C15] relative-arguments-are-resolved-against-the-working-directory-as-reported: arg0 == ret("funcval:main.mainCmd.Getwd", 0) && arg1 == opts.Args.Patterns
 //@   at call main.loadPatches assert [C12,C14] one-file-set-for-patches-and-targets: arg0 == ret("go/token.NewFileSet", 0)
@@ -271,8 +278,10 @@ package main
 //@     invariant arr(kept) == 0 || fresh(arr(kept))
 
 // The sort.Slice comparison of findFiles.
+// The order files are processed in: by resolved path, however the arguments were spelled.
 //@ func findFiles$1(i, j) (r)
 //@   requires 0 <= i && i < len(sortedPaths) && 0 <= j && j < len(sortedPaths)
+//@   ensures [C15] ordered-by-resolved-path: r == (sortedPaths[i].Absolute < sortedPaths[j].Absolute)
 //@   assigns nothing
 
 // ---- loader.go ------------------------------------------------------------------------------
@@ -336,6 +345,6 @@ package main
 // the program name; the standard streams exist).
 //@ func runMain() (exitCode)
 //@   ensures [C07,C16] the-exit-status-is-1-for-any-failure-and-0-otherwise: exitCode == ite(ret("(*main.mainCmd).Run", 0) == nil, 0, 1)
-//@   at call (*main.mainCmd).Run assert [C12,C15,C16] the-command-is-wired-to-the-process-itself: arg0.Getwd == fn("os.Getwd") && arg0.Stdout == boxed(global("os.Stdout")) && arg0.Stderr == boxed(global("os.Stderr")) && arg0.Stdin == boxed(global("os.Stdin"))
+//@   at call (*main.mainCmd).Run assert [C07,C12,C14,C15,C16] the-command-is-wired-to-the-process-itself: arg0.Getwd == fn("os.Getwd") && arg0.Stdout == boxed(global("os.Stdout")) && arg0.Stderr == boxed(global("os.Stderr")) && arg0.Stdin == boxed(global("os.Stdin"))
 //@   unfold len(global("os.Args")) >= 1 && global("os.Stdout") != nil && global("os.Stderr") != nil
 //@   unfold snapEnvOK() && compileEnvOK()
